@@ -1,0 +1,12 @@
+//go:build verif
+
+package openapi3filter
+
+import "github.com/getkin/kin-openapi/openapi3"
+
+// VerifDecodeStyledParameter exposes the styled-parameter decoder to the verification
+// harness (build tag "verif" only): it returns the decoded value, whether the parameter was
+// found in the request, and the decoding error.
+func VerifDecodeStyledParameter(param *openapi3.Parameter, input *RequestValidationInput) (any, bool, error) {
+	return decodeStyledParameter(param, input)
+}
